@@ -20,7 +20,8 @@ import Driver.Util
     decskel lbrr <data>              → opus_packet_has_lbrr as the skeleton predicts silk_Decode's LBRR flag
     decskel plcgain <lossCnt> <voiced> <nb_subfr> <B0,..,B4> <randScale_Q14> <prevLTP_scale_Q14> <invGain_Q30>
                                      → <B0',..,B4'> <randScale_Q14'>   (gain scalars after one concealed SILK frame)
-    decskel lossdur <loss_duration> <LM> → loss_duration'
+    decskel lossdur <loss_duration> <LM> → loss_duration'   (after a concealed CELT frame)
+    decskel lossgood <LM>                → loss_duration'   (after a decoded CELT frame)
 -/
 namespace Driver.SuiteDecSkel
 open Opus Opus.Framing Opus.DecSkel Driver
@@ -205,11 +206,15 @@ def handle : List String → String
     match parseInt lossCnt, parseInt voiced, parseNat nbSubfr, parseIntList bs, parseInt rs, parseInt plt, parseInt ig with
     | some lc, some v, some nsf, some b, some rs, some plt, some ig =>
       let g := Opus.SilkPlcGains.conceal lc (v ≠ 0) nsf b rs plt ig
-      s!"{intList g.1} {g.2}"
+      s!"g={intList g.1} {g.2}"
     | _, _, _, _, _, _, _ => "bad-op"
+  | ["lossgood", lm] =>
+    match parseNat lm with
+    | some lm => s!"ld={Opus.SilkPlcGains.celtLossGood lm}"
+    | none => "bad-op"
   | ["lossdur", ld, lm] =>
     match parseInt ld, parseNat lm with
-    | some ld, some lm => toString (Opus.SilkPlcGains.celtLossStep ld lm)
+    | some ld, some lm => s!"ld={Opus.SilkPlcGains.celtLossStep ld lm}"
     | _, _ => "bad-op"
   | _ => "bad-op"
 
